@@ -2,6 +2,7 @@ package main
 
 import (
 	"fmt"
+	"go/constant"
 	"go/token"
 	"go/types"
 	"sort"
@@ -102,6 +103,43 @@ func extractScriptRows(c *Ctx, pa *provAnalysis, pk *Packager) []scriptRow {
 				}
 			}
 			rows = append(rows, scriptRow{Slot: slot, Fields: scriptAtoms(p), At: in, Fn: fn, Kind: "rpm"})
+		})
+		// one call per slot: a module function or closure handed the slot's
+		// name as a constant together with the script path
+		forEachInstr(fn, func(in ssa.Instruction) {
+			call, ok := in.(*ssa.Call)
+			if !ok {
+				return
+			}
+			sc := call.Call.StaticCallee()
+			if sc == nil || len(sc.Blocks) == 0 || !c.isModuleFunc(sc) {
+				return
+			}
+			slot, nSlots := "", 0
+			src := provSet{}
+			var consts []string
+			for _, a := range call.Call.Args {
+				if k, isK := a.(*ssa.Const); isK && isConstString(k) {
+					for _, s := range specScripts {
+						if s.Slots[pk.Format] == constString(k) && constString(k) != "" {
+							slot = constString(k)
+							nSlots++
+							break
+						}
+					}
+					continue
+				}
+				p := pa.Of(a)
+				if len(scriptAtoms(p)) > 0 {
+					src.add(p)
+				} else {
+					consts = append(consts, p.consts()...)
+				}
+			}
+			if nSlots != 1 || len(scriptAtoms(src)) == 0 {
+				return
+			}
+			rows = append(rows, scriptRow{Slot: slot, Fields: scriptAtoms(src), Consts: consts, At: in, Fn: fn, Kind: "call"})
 		})
 		// struct literals: elements of an array of structs with one constant
 		// string field (the slot) and a field fed from a script path
@@ -432,12 +470,18 @@ func checkC09(c *Ctx, r *Report) {
 	checkInstallFunctionClosed(c, r)
 	r.Floor("merge-S-get", importRules(c, r, checkC13, "merge-", []string{"S-get"}, nil), 3)
 	checkScriptNotCarried(c, r)
+	checkNoOwnScripts(c, r)
+	checkScriptTagPairs(c, r)
+	// a script path survives the expansion pass as the field it was: every
+	// expansion store writes a field back from itself (rule of C16) - a section
+	// rebuilt from some of its fields loses the scripts below it
+	r.Floor("kept-F15-self", importRules(c, r, checkC16, "kept-", []string{"F15-self"}, nil), 12)
 	// script paths reach their readers as configured (rule E5 of C06): an
 	// expansion step that rewrites them can cross-wire or blank a slot
 	r.Floor("ref-E5", importRules(c, r, checkC06, "ref-", []string{"E5"}, func(o Obligation) bool {
 		return strings.Contains(o.Construct, "Scripts.")
 	}), 8)
-	r.Rules = []string{"S1 slot<->field table per format equals the statement's", "S2 each slot guarded by non-emptiness of its own field", "S3 bytes flow unmodified from the file read to the slot", "S4 mode constants", "S5 rpmpack scriptlet tags (thorough)", "S6 script buffers are fresh", "S7 a configured script must-reaches its slot", "S4-const modes of generated members depend on no configuration value", "S4-const also for entry descriptors a packager makes up (ipk script table)", "S3-row script text handed to a slot setter is not a loop-carried variable", "S3-arch-close the text closing an archlinux script function starts on a new line", "merge-S-get override blocks are merged field by field (imported from C13)"}
+	r.Rules = []string{"S1 slot<->field table per format equals the statement's", "S2 each slot guarded by non-emptiness of its own field", "S3 bytes flow unmodified from the file read to the slot", "S4 mode constants", "S5 rpmpack scriptlet tags (thorough)", "S6 script buffers are fresh", "S7 a configured script must-reaches its slot", "S4-const modes of generated members depend on no configuration value", "S4-const also for entry descriptors a packager makes up (ipk script table)", "S3-row script text handed to a slot setter is not a loop-carried variable", "S3-arch-close the text closing an archlinux script function starts on a new line", "merge-S-get override blocks are merged field by field (imported from C13)", "S2-own-script no packager carries script text of its own (a constant starting with an interpreter line)", "S5-tag-pair a scriptlet tag number written by hand is the tag of the slot it accompanies", "kept-F15-self the expansion pass writes every field back from itself (imported from C16)"}
 	r.Explanation = "Table extraction and field provenance over go/ssa. For every packager the places where a script-path field of the configuration is bound to a slot name are extracted (constant-keyed map updates, struct-literal rows, rpmpack Add* calls) and the resulting (slot, field) relation is compared with the table transcribed from the statement — equality, so a missing, extra or cross-wired slot is a violation and every one of the 15 script fields is accounted for in exactly the formats that own it. Each consumer (the read of the script file) must be dominated by a non-emptiness test of a value with the same script-field provenance (populated iff configured). The bytes that reach the archive writer or the rpmpack slot derive from the file read through conversions only — any other function on that path is a violation. Lifecycle script modes are the stated constants. All subsets of configured scripts are covered because each slot is decided independently of the others."
 	r.Explanation += " (S6) buffers that receive script bytes are fresh or reset. (S7) with only one script configured its slot binding is must-reached from Package. (S4-const) the mode of every member a packager generates itself has no configuration atom in its provenance."
 	r.Explanation += " S4-const also covers the mode a packager writes into a ContentFileInfo it allocates itself."
@@ -1038,6 +1082,7 @@ func carriedPhi(v ssa.Value) *ssa.Phi {
 // unconfigured slot the script of the slot before it.
 func checkScriptNotCarried(c *Ctx, r *Report) {
 	n := 0
+	paS := newProv(c)
 	for _, pk := range c.Packagers {
 		if pk.Format == "" {
 			continue
@@ -1059,6 +1104,10 @@ func checkScriptNotCarried(c *Ctx, r *Report) {
 				}
 				if call.Call.StaticCallee() == nil && !call.Call.IsInvoke() {
 					if _, _, isRow := loopElemField(call.Call.Value); isRow {
+						setter = true
+					}
+					// a setter handed to a helper as a function value
+					if funcParamIsRPMSlot(paS, call.Call.Value) {
 						setter = true
 					}
 				}
@@ -1126,4 +1175,106 @@ func checkInstallFunctionClosed(c *Ctx, r *Report) {
 		})
 	}
 	r.Floor("S3-arch-close", n, 1)
+}
+
+// checkNoOwnScripts (S2-own-script): "a slot is populated iff its script is
+// configured", with the configured bytes. A packager that carries script text
+// of its own (a constant starting with an interpreter line) can only use it to
+// fill a slot nobody configured or to replace what was configured.
+func checkNoOwnScripts(c *Ctx, r *Report) {
+	n := 0
+	bad := ""
+	pos := "-"
+	pkgs := map[string]bool{}
+	for _, pk := range c.Packagers {
+		if pk.Format != "" {
+			pkgs[pk.PkgPath] = true
+		}
+	}
+	seen := map[*ssa.Const]bool{}
+	for _, fn := range c.ModFuncs {
+		if !pkgs[c.funcPkgPath(fn)] {
+			continue
+		}
+		n++
+		forEachInstr(fn, func(in ssa.Instruction) {
+			for _, op := range in.Operands(nil) {
+				if op == nil || *op == nil {
+					continue
+				}
+				k, ok := (*op).(*ssa.Const)
+				if !ok || seen[k] || !isConstString(k) {
+					continue
+				}
+				seen[k] = true
+				if s := strings.TrimLeft(constString(k), " \t\r\n"); strings.HasPrefix(s, "#!") {
+					bad = shorten(strings.SplitN(s, "\n", 2)[0], 40) + " in " + c.funcKey(fn)
+					pos = c.instrPos(in)
+				}
+			}
+		})
+	}
+	r.Check(bad == "", "S2-own-script", "no packager carries script text of its own", pos,
+		fmt.Sprintf("%d packager functions examined; a string constant starting with an interpreter line (%s): script slots hold the configured files only", n, bad))
+	if n < 50 {
+		r.Fail("instance-floor", "S2-own-script", "-", fmt.Sprintf("only %d packager functions examined", n))
+	}
+}
+
+// checkScriptTagPairs (S5-tag-pair): rpmpack fills the scriptlet tags through
+// its Add* methods. Where the packager names such a tag by number - handed to a
+// helper next to the setter, or written with AddCustomTag - the number is the
+// tag of that very slot; custom tags are applied last, so a wrong number
+// overwrites another event's script.
+func checkScriptTagPairs(c *Ctx, r *Report) {
+	pk := c.PackagerByFormat("rpm")
+	if pk == nil {
+		return
+	}
+	tagSlot := map[int64]string{}
+	for slot, t := range rpmScriptTags {
+		tagSlot[int64(t)] = slot
+	}
+	n := 0
+	for _, fn := range sortedFuncs(c, c.Reach(pk.Package)) {
+		if c.funcPkgPath(fn) != pk.PkgPath {
+			continue
+		}
+		forEachInstr(fn, func(in ssa.Instruction) {
+			call, ok := in.(*ssa.Call)
+			if !ok {
+				return
+			}
+			slot := ""
+			var tags []int64
+			for _, a := range call.Call.Args {
+				if s := boundRPMSlot(a); s != "" {
+					slot = s
+				}
+				if k, isK := stripConv(a).(*ssa.Const); isK && k.Value != nil && k.Value.Kind() == constant.Int {
+					if _, isTag := tagSlot[k.Int64()]; isTag {
+						tags = append(tags, k.Int64())
+					}
+				}
+			}
+			if calleeIs(call, rpmpackPath, "RPM", "AddCustomTag") && len(tags) > 0 {
+				n++
+				r.Fail("S5-tag-pair", fmt.Sprintf("rpm: scriptlet tag %d written as a custom tag in %s", tags[0], c.funcKey(fn)), c.instrPos(call),
+					"a scriptlet tag is written with AddCustomTag and a literal number: custom tags are applied after the generated ones and replace the script rpmpack put there")
+				return
+			}
+			if slot == "" || len(tags) == 0 {
+				return
+			}
+			for _, t := range tags {
+				n++
+				r.Check(tagSlot[t] == slot, "S5-tag-pair", fmt.Sprintf("rpm: tag number next to the %s setter#%d in %s", slot, n, c.funcKey(fn)), c.instrPos(call),
+					fmt.Sprintf("the call pairs the %s setter with tag %d, which is %s: what is written under that number lands in another event's slot", slot, t, tagSlot[t]))
+			}
+		})
+	}
+	r.Count("script_tag_pairs", n)
+	if n == 0 {
+		r.Pass("S5-tag-pair", "rpm: no scriptlet tag is named by number in the packager", "-", "the slots are filled through rpmpack's Add* methods only")
+	}
 }
